@@ -91,8 +91,9 @@ def run_check(prop, tier, seed, replay=None, jobs=None, only_unit=None, scale=1.
         else:
             for u in units:
                 n = max(1, int(round(u["n"] * scale))) if not u.get("fixed_n") else u["n"]
+                only_b = os.environ.get("VERIF_BUILDS")
                 for b in u.get("builds", ["py"]):
-                    if dirs.get(b) is None:
+                    if dirs.get(b) is None or (only_b and b not in only_b.split(",")):
                         continue
                     chunk = u.get("chunk") or max(1, min(400, -(-n // ((jobs or NPROC) * 3))))
                     for s in range(0, n, chunk):
@@ -192,7 +193,7 @@ def finish(mod, prop, tier, seed, recs, statuses, notes, t_start, replay, quiet)
         k = known[m]
         w = rs[0].get("witness") or {}
         lines.append("KNOWN-FINDING: property=%s %s [%s] %s -- %d case(s), e.g. %s" % (prop, k["id"], m, k["what"], len(rs), json.dumps(w, default=str)[:300]))
-    rdir = os.path.join(VERIF, "replay", prop)
+    rdir = os.path.join(os.environ.get("VERIF_REPLAY_DIR") or os.path.join(VERIF, "replay"), prop)
     vio_paths = []
     if viols:
         os.makedirs(rdir, exist_ok=True)
@@ -250,8 +251,9 @@ def finish(mod, prop, tier, seed, recs, statuses, notes, t_start, replay, quiet)
     if hasattr(mod, "env_info"):
         ev["coverage"]["environment"] = mod.env_info()
     if not replay:
-        os.makedirs(os.path.join(VERIF, "evidence"), exist_ok=True)
-        json.dump(ev, open(os.path.join(VERIF, "evidence", prop + ".json"), "w"), indent=1, default=str)
+        evdir = os.environ.get("VERIF_EVIDENCE_DIR") or os.path.join(VERIF, "evidence")
+        os.makedirs(evdir, exist_ok=True)
+        json.dump(ev, open(os.path.join(evdir, prop + ".json"), "w"), indent=1, default=str)
     if not quiet:
         print("%s tier=%s seed=%s: %d cases, %s, %d distinct non-trivial, %.1fs" % (prop, tier, seed, total, json.dumps(by_v), len(sigs), wall))
         if cnt:
